@@ -27,13 +27,13 @@ def check_c20(tier, replay=None):
     rep = Report('C20', tier)
     nsh = 16
     shards = list(range(nsh))
-    lo, hi = (2, 14) if tier == 'quick' else (4, 12)
+    lo, hi = (2, 15) if tier == 'quick' else (4, 13)
     res = run_shards('StoneWhitelist',
                      lambda s: dict(spec='Spec', constants={'Shard': s, 'NShards': nsh, 'EmitVectors': True, 'Lo': lo, 'Hi': hi},
                                     invariants=['ContainsSeeds', 'Closed', 'Minimal', 'OpAgrees'], constraints=['Emit']),
                      shards, 'wlcheck.WhitelistJudge', {}, tlc_kwargs={'timeout': 6000})
     agg = merge(res)
-    rep.add_tlc('StoneWhitelist', agg, {'edges': 16, 'whitelists': 39, 'edge_sets': 'at most %d or at least %d of 16 switches on' % (lo, hi)})
+    rep.add_tlc('StoneWhitelist', agg, {'edges': 17, 'whitelists': 39, 'edge_sets': 'at most %d or at least %d of 17 switches on' % (lo, hi)})
     rep.add_judged(agg)
     rep.exhaustive = False
     rep.coverage_extra['rule'] = ('edge sets with few or almost all of 16 switches (15 dependency edges: field type direct / List / Map+nullable / alias; parent; '
